@@ -477,7 +477,23 @@ class Interp:
 
     def compare(self, e, fr):
         if len(e.ops) != 1:
-            raise Unsupported("chained comparison")
+            # a < b < c: every operand evaluated once (operands are effect-free reads here), conjunction
+            vals = [self.num(self.eval(x, fr), e) for x in [e.left] + list(e.comparators)]
+            acc = None
+            for op_, a_, b_ in zip(e.ops, vals, vals[1:]):
+                on = CMPOPS.get(type(op_))
+                if on is None:
+                    raise Unsupported("comparison operator")
+                c_ = sym.cond(on, a_, b_)
+                if acc is None:
+                    acc = c_
+                elif isinstance(acc, bool) and isinstance(c_, bool):
+                    acc = acc and c_
+                else:
+                    import z3 as _z3
+
+                    acc = _z3.And(_z3.BoolVal(acc) if isinstance(acc, bool) else acc, _z3.BoolVal(c_) if isinstance(c_, bool) else c_)
+            return acc
         opn = CMPOPS.get(type(e.ops[0]))
         if opn is None:
             raise Unsupported("comparison operator")
